@@ -568,6 +568,23 @@ func (prop) Execute(scAny any, phase string, log *core.Log) core.Result {
 	}
 	res.Steps++
 	alloc := ms1.TotalAlloc - ms0.TotalAlloc
+	if bound := allocBound(len(data), s.Limits); alloc > bound && alloc-bound <= 64<<10 && p == "" {
+		// TotalAlloc is process-wide: now and then the runtime itself
+		// allocates in the background (it creates its GC workers when a
+		// collection starts: some 16 KB once). Only an excess small enough to
+		// be that is looked at again: a decode is deterministic, so what it
+		// allocates it allocates again; the smaller number counts. (An excess
+		// of more than 64 KiB is reported at once: a buffer that is allocated
+		// once and pooled would otherwise hide behind the second measurement.)
+		in2 := append([]byte(nil), data...)
+		runtime.ReadMemStats(&ms0)
+		core.Guard(func() { _, _ = lib.Unmarshal(in2) })
+		runtime.ReadMemStats(&ms1)
+		if again := ms1.TotalAlloc - ms0.TotalAlloc; again < alloc {
+			res.Count("probe:alloc-remeasured-lower", 1)
+			alloc = again
+		}
+	}
 	res.Count("probe:alloc-metered", 1)
 	if alloc > uint64(16*len(data)+2048) {
 		res.Count("probe:alloc>16x-input", 1)
